@@ -692,8 +692,9 @@ def main():
     ensures={c: _clause(c) for c in CLAUSES + ("C21.picked_id_is_unused", "C21.metadata_ids_are_engine_tables",
                                                "C21.harness")},
     classify=_classify_siblings, nontrivial=_siblings_nontrivial)
+  # (4 worker processes: engine-heavy cases scale badly beyond that in forked pool workers)
   fn.check(rep, sib, sibling_cases, exhaustive=True, limit_quick_s=40, limit_thorough_s=400,
-           warm_engine=True)
+           warm_engine=True, procs=4)
 
   from vlib.rtc import explore
   explore.explore(rep, "checks.C21", "IdentMonitor", n_quick=32, n_thorough=4000,
